@@ -155,9 +155,10 @@ PROPS["C13"] = dict(
     bin="race", level="exploration", shards={"quick": 12, "thorough": 16},
     timeout={"quick": 1200, "thorough": 3400},
     race_escalate=[r"network/socket/buffered\."],
-    rule=("per run: a real RECORD publisher pushes checksummed RTP frames (size classes 40-200, 1000-1400, 20000-60000, mixed) at full speed "
+    rule=("per run: a real RECORD publisher pushes checksummed RTP frames (size classes 40-200, 1000-1400, 20000-60000, mixed) paced to at most 50 000 frames/s and 32 MB/s "
           "through the in-process server while one real player (TCP with client-chosen channels 4-7, ws-rtsp, or WSP control+data) issues "
-          "600 (quick) / 4000 (thorough) OPTIONS/PLAY/GET_PARAMETER(/PAUSE) requests during delivery; seeded delays at the hook point between "
+          "600 (quick) / 4000 (thorough) OPTIONS/PLAY/GET_PARAMETER(/PAUSE) requests during delivery (requests start once the first frame arrived); on WSP, other WSP sessions on the same stream come and go "
+          "meanwhile (session churn) and are held to the same oracle; seeded delays at the hook point between "
           "the 4-byte frame prefix and the payload. Distinct by (transport, size class)"),
     level_text=("Stream-parser monitor at the client boundary: every byte the player receives must parse as complete responses and complete "
                 "'$' frames with valid payload checksums; every WebSocket message is exactly one item; race-detector reports inside "
